@@ -3,7 +3,8 @@ package openapi3
 import "context"
 
 func validateExampleValue(ctx context.Context, input any, schema *Schema) error {
-	opts := make([]SchemaValidationOption, 0, 2)
+	opts := make([]SchemaValidationOption, 0, 4)
+	opts = append(opts, patternOptions(ctx)...)
 
 	if vo := getValidationOptions(ctx); vo.examplesValidationAsReq {
 		opts = append(opts, VisitAsRequest())
@@ -13,4 +14,18 @@ func validateExampleValue(ctx context.Context, input any, schema *Schema) error 
 	opts = append(opts, MultiErrors())
 
 	return schema.VisitJSON(input, opts...)
+}
+
+// patternOptions hands the document validation options about patterns on to the check of a value
+// (a default, an example) against its schema.
+func patternOptions(ctx context.Context) []SchemaValidationOption {
+	var opts []SchemaValidationOption
+	vo := getValidationOptions(ctx)
+	if vo.schemaPatternValidationDisabled {
+		opts = append(opts, DisablePatternValidation())
+	}
+	if vo.regexCompilerFunc != nil {
+		opts = append(opts, SetSchemaRegexCompiler(vo.regexCompilerFunc))
+	}
+	return opts
 }
